@@ -16,6 +16,7 @@ import (
 	"sort"
 	"strings"
 	"testing"
+	"time"
 
 	"github.com/ozontech/seq-db/zzverif/vlib"
 	"github.com/ozontech/seq-db/zzverif/vsched"
@@ -76,13 +77,30 @@ func (w *c18World) apply(op string) string {
 	case strings.HasPrefix(op, "getpanic:"):
 		fmt.Sscanf(op, "getpanic:%d:%d", &c, &k)
 		_, present := w.caches[c].payload[k]
-		p := vlib.Catch(func() { w.caches[c].Get(k, func() (int, int) { panic("loader panic") }) })
+		// key 1 panics inside Get, key 2 inside GetWithError (the entry point of the production readers)
+		p := vlib.Catch(func() {
+			if k == 1 {
+				w.caches[c].Get(k, func() (int, int) { panic("loader panic") })
+			} else {
+				w.caches[c].GetWithError(k, func() (int, int, error) { panic("loader panic") })
+			}
+		})
 		if !present && p == nil {
 			return fmt.Sprintf("panicking load of (c%d,k%d) was not propagated", c, k)
 		}
 		if !present {
-			calls2 := 0
-			v := w.caches[c].Get(k, func() (int, int) { calls2++; return c18Val(c, k), c18Size(k) })
+			// the next lookup must reload; a pending entry left behind would block it forever
+			calls2, v := 0, 0
+			done := make(chan struct{})
+			go func() {
+				v = w.caches[c].Get(k, func() (int, int) { calls2++; return c18Val(c, k), c18Size(k) })
+				close(done)
+			}()
+			select {
+			case <-done:
+			case <-time.After(20 * time.Second):
+				return fmt.Sprintf("after a panicked load of (c%d,k%d) the next lookup of the key blocks (no answer within 20 s for an in-memory loader)", c, k)
+			}
 			if calls2 != 1 || v != c18Val(c, k) {
 				return fmt.Sprintf("after a panicked load of (c%d,k%d) the next lookup did not reload (calls=%d value=%d)", c, k, calls2, v)
 			}
@@ -527,7 +545,7 @@ func TestVerifC18(t *testing.T) {
 	}
 	ev := r.Get("evaluations")
 	r.Finish(t, "model_checking",
-		fmt.Sprintf("(a) explicit-state BFS to depth %d from one cleaner (limit %d B) and one cache: operations get / failing get / panicking get (keys 1,2) / Rotate / Cleanup / CleanEmptyGenerations / ReleaseBuckets / Release(c) / NewCache (<=3 caches); successor = replay of the path on a fresh instance + 1 op; canonical state = generation sizes+stale flags, per cache (released, managed, current generation rank, key->size@generation rank); invariants in every state: returned value = loader value, failed/panicked load reported and next lookup reloads, accounted size = sum of live entries, every live cache managed, size <= limit right after Cleanup. (b) all interleavings with <=%d preemptions (-1 = unbounded) of 8 three-thread scenarios (same key twice, failing, panicking, release, release of the cache sharing the generation of an in-flight load, and an entry evicted while its ok / failing / panicking loader runs followed by a second lookup of the key) with a cleaner pass; loaders contain a scheduling point; invariants at quiescence. distinct_nontrivial = distinct canonical states + scenarios", depth, c18Limit, bound),
+		fmt.Sprintf("(a) explicit-state BFS to depth %d from one cleaner (limit %d B) and one cache: operations get / failing get / panicking get (keys 1,2) / Rotate / Cleanup / CleanEmptyGenerations / ReleaseBuckets / Release(c) / NewCache (<=3 caches); successor = replay of the path on a fresh instance + 1 op; canonical state = generation sizes+stale flags, per cache (released, managed, current generation rank, key->size@generation rank); invariants in every state: returned value = loader value, failed/panicked load (panic inside Get for key 1, inside GetWithError for key 2) reported and next lookup reloads without blocking, accounted size = sum of live entries, every live cache managed, size <= limit right after Cleanup. (b) all interleavings with <=%d preemptions (-1 = unbounded) of 8 three-thread scenarios (same key twice, failing, panicking, release, release of the cache sharing the generation of an in-flight load, and an entry evicted while its ok / failing / panicking loader runs followed by a second lookup of the key) with a cleaner pass; loaders contain a scheduling point; invariants at quiescence. distinct_nontrivial = distinct canonical states + scenarios", depth, c18Limit, bound),
 		map[string]any{
 			"states":                        r.Get("bfs_states") + int64(r.DistinctCount("outcomes")),
 			"transitions":                   ev,
